@@ -1,6 +1,7 @@
-From MV Require Import Lib.ExtractBase C01.Model C01.ModelQ C01.Dispatch.
+From MV Require Import Lib.ExtractBase C01.Model C01.ModelQ C01.Dispatch C01.ModelRC.
 From Coq Require Import ExtrOcamlBasic.
 Extraction Language OCaml.
-Extraction "c01_model" force_types mk_cfg mk_cfg_flags cinit cstep cstep1 tag
+Extraction "c01_model" force_types usable mk_cfg mk_cfg_val with_val mk_cfg_flags cinit cstep cstep1 tag
   c_wcur c_rcur c_acc c_del c_overw c_badfull c_uncov c_thr t_pc
-  qinit qstep dinit dstep.
+  qinit qstep dinit dstep
+  xinit xstep x_s x_r r_unc r_ep.
